@@ -302,7 +302,7 @@ def run(ctx):
     # planned, every run: single COORDINATES of observed points marked missing (a mask that is not uniform over the coordinate axis — user code masking a depth, a
     # representation masking an undefined angle): the statistics of the normalisers must leave such frames out like any other missing slot
     for be in ("tf", "tf", "torch", "numpy", "tf", "numpy"):
-        for opk in ("normalize", "normalize_distribution", "zero_filled"):
+        for opk in ("normalize", "normalize_distribution", "zero_filled", "get_points", "select_frames", "copy"):
             case = gen_case(rng)
             tries = 0
             while (case["body"]["frames"] < 3 or case["body"]["points"] < 2) and tries < 80:
@@ -324,6 +324,12 @@ def run(ctx):
             case["fill1"], case["fill2"], case["fills"] = f1, f2, [k1, k2]
             if opk == "zero_filled":
                 op = {"k": "zero_filled"}
+            elif opk == "get_points":
+                op = {"k": "get_points", "ixs": [case["extra_mask"][0][2], p1, p2]}          # the point that carries the mask of its own is among the selected ones
+            elif opk == "select_frames":
+                op = {"k": "select_frames", "ixs": [f0, F - 1, f0]}
+            elif opk == "copy":
+                op = {"k": "copy"}
             elif opk == "normalize":
                 if be == "torch":
                     continue                               # torch poses offer no normalize
@@ -338,6 +344,30 @@ def run(ctx):
             case["planned"] = "a single coordinate of an observed reference point marked missing"
             case["no_model"] = True
             plan["tf" if be == "tf" else be].append(case)
+    # planned, every run: the 3-D hand normaliser of the known formats (`normalize_hands_3d`) on a Holistic-shaped pose whose hand REFERENCE points are observed
+    # (known finding K4 is about missing reference points) and whose other points are missing here and there
+    try:
+        from .c11 import holistic_header, HAND_NAMES
+        hol = pc.canon_header(holistic_header())
+        for _ in range(2):
+            Np = sum(len(c["points"]) for c in hol["components"])
+            F = 2
+            conf = np.array([0.0 if rng.random() < 0.3 else 1.0 for _ in range(F * Np)], dtype=np.float32).reshape(F, 1, Np)
+            off = 0
+            for c in hol["components"]:
+                if pc.unhx(c["name"]) in ("LEFT_HAND_LANDMARKS", "RIGHT_HAND_LANDMARKS"):
+                    for nm in ("WRIST", "PINKY_MCP", "INDEX_FINGER_MCP", "MIDDLE_FINGER_MCP"):
+                        conf[:, :, off + HAND_NAMES.index(nm)] = 1.0
+                off += len(c["points"])
+            data = np.array([rng.randint(-40, 40) / 4 for _ in range(F * Np * 3)], dtype=np.float32)
+            case = {"header": hol, "body": {"fps": {"f32": 0x41C80000}, "frames": F, "people": 1, "points": Np, "dims": 3, "data": pc.f32_to_bits(data), "conf": pc.f32_to_bits(conf)}}
+            k1, f1 = rng.choice([(k, list(SPECIAL[k])) for k in SPECIAL if k not in ("finite", "zeros")])
+            case["fill1"], case["fill2"], case["fills"] = f1, pc.f32_to_bits(np.array([rng.randint(-400, 400) / 8 for _ in range(7)], dtype=np.float32)), [k1, "finite"]
+            case["ops"] = [{"k": "normalize_hands_3d"}, {"k": "zero_filled"}]
+            case["backend"], case["masked_input"], case["no_model"], case["planned"] = "numpy", None, True, "normalize_hands_3d"
+            plan["numpy"].append(case)
+    except Exception as e:
+        ctx.notes.append("normalize_hands_3d planned case not built: %s" % e)
     plan["numpy"].insert(0, k4_witness())
     results = []
     for be in ("numpy", "torch"):
